@@ -21,7 +21,7 @@ PROP = 'C07'
 MANIFEST = dict(
     category='exploration', design_ref='DESIGN.md §3 C07',
     technique='exhaustive enumeration of documents x 15 supply routes x 15 repeat routes x directory orders through the real wn.add, canonical/exact table-dump equality',
-    text='For each document (single lexicon, two lexicons, extension over an installed base, nasty-payload document, lexicon-level frame carrying a senses attribute, ILI file) the same bytes are supplied through every route (xml, gz, xz, package with extra files, collection, tar/tar.gz/tar.xz of file/package/collection, lmf.load + add_lexical_resource); the canonical table dump must equal the plain-file reference; a second add through every route must leave the exact dump unchanged; an extension without its base must be skipped as a whole without an exception; input files (sha256) and the in-memory resource (deep copy) must be unmodified; for collections every order in which the directory can list its packages is explored.',
+    text='For each document (single lexicon, two lexicons, extension over an installed base, nasty-payload document, lexicon-level frame carrying a senses attribute, ILI file) the same bytes are supplied through every route (xml, gz, xz, package with extra files, collection, tar/tar.gz/tar.xz of file/package/collection, lmf.load + add_lexical_resource); the canonical table dump must equal the plain-file reference; a second add through every route must leave the exact dump unchanged; an extension without its base must be skipped as a whole without an exception; input files (sha256) and the in-memory resource (deep copy) must be unmodified; for collections every order in which the directory can list its packages is explored, and a collection holding two versions of one lexicon id must give the same wn.lexicons() order and the same bare-id resolution under every such order.',
     note='An extension bundled in the same file as its own base is not generated (the statement does not say whether the pre-check or the post-state decides). Cross-lexicon row order and the shared lookup inventories are compared as sets.',
 )
 
@@ -61,6 +61,9 @@ def documents():
         # an extension whose base is missing is skipped as a whole - and nothing else is
         'skip-mix': ({'lmf_version': v, 'lexicons': [docs.extension(v, docs.maximal(v, lid='nb'), lid='xq'), S, T]}, []),
         'skip-mix-ref': ({'lmf_version': v, 'lexicons': [S, T]}, []),
+        # two versions of one lexicon id (independent packages of one collection): which of them is "the most
+        # recently added" is observable through a bare-id specifier
+        'versions': ({'lmf_version': v, 'lexicons': [S, dict(copy.deepcopy(S), version='9-later')]}, []),
     }
     return out
 
@@ -128,6 +131,29 @@ def check(case):
         else:
             resource, pre = documents()[docname]
             parts, suffix = routes.resource_parts(resource), '.xml'
+        if case.get('allperms'):
+            # the same collection listed by the file system in every possible order: what the library reports
+            # afterwards (order of wn.lexicons(), resolution of the bare id) must not depend on it
+            seen = {}
+            for k in range(case['allperms']):
+                _PERM[0] = k
+                env.drop_db(dbdir)
+                dbdir = env.fresh_db()
+                ok, err, v = do_add(r1, d / f'perm{k}', parts, resource, suffix)
+                V += v
+                n += 1
+                if not ok:
+                    V.append((f'route:raises:{err[0]}@{err[1]}', f'route {r1} (directory order {k}) raised {err}'))
+                    continue
+                lid = resource['lexicons'][0]['id']
+                o = ([x.specifier() for x in wn.lexicons()], [x.specifier() for x in wn.lexicons(lexicon=lid)])
+                seen.setdefault(repr(o), k)
+                env.close_pool()
+            if len(seen) > 1:
+                V.append((f'route:depends-on-directory-order:{r1}',
+                          f'the same collection gives different results depending on the order in which the directory '
+                          f'lists its packages: {sorted(seen)}'))
+            return {'v': V, 'digs': [runner.digest(sorted(seen))], 'nt': 1, 'n': n}
         for i, p in enumerate(pre if not case.get('nobase') else []):
             env.add(env.write_file(f'pre{i}.xml', xmlw.serialize(p), d))
         if case.get('nobase'):
@@ -241,6 +267,8 @@ def space(tier, seed):
         for r1 in ('collection', 'tar-collection', 'package'):
             for k in range(nperm):
                 cases.append({'doc': name, 'r1': r1, 'r2': [r1], 'perm': k})
+    for r1 in ('collection', 'tar-collection', 'tgz-collection'):
+        cases.append({'doc': 'versions', 'r1': r1, 'allperms': 6})
     for r1 in routes.ALL_ROUTES:
         cases.append({'doc': 'extension', 'r1': r1, 'nobase': True})
     return cases
